@@ -3,6 +3,7 @@ import SkgVerif.Model.Grouping
 import SkgVerif.Model.Estimators
 import SkgVerif.Model.Binning
 import SkgVerif.Model.SumModels
+import SkgVerif.Model.Kriging
 import SkgVerif.Gen.ModelsExec
 import SkgVerif.Gen.STModelsExec
 /-!
@@ -142,6 +143,43 @@ def handleC03 : List String → Option String
   | ["slices", ks] => do
       let ks ← parseNats ks
       some s!"ok|{fmtList (fun (p : Nat × Nat) => s!"{p.1},{p.2}") (argSlices ks)}"
+  | _ => none
+
+
+def buildOutcomes : List String → List Rat → List Rat → Option (List Outcome)
+  | [], _, _ => some []
+  | "k" :: ks, z :: zs, g :: gs => (buildOutcomes ks zs gs).map (Outcome.ok z g :: ·)
+  | "l" :: ks, zs, gs => (buildOutcomes ks zs gs).map (Outcome.lessPoints :: ·)
+  | "s" :: ks, zs, gs => (buildOutcomes ks zs gs).map (Outcome.singular :: ·)
+  | _, _, _ => none
+
+def handleC07 : List String → Option String
+  | ["find", "dense", row, maxd, n] => do
+      let row ← parseRats row
+      let maxd ← parseRat maxd.trimAscii.toString
+      let n ← n.trimAscii.toString.toNat?
+      some s!"ok|{fmtList toString (findClosestDense row maxd n)}"
+  | ["find", "sparse", ds, idx, n] => do
+      let ds ← parseRats ds
+      let idx ← parseNats idx
+      let n ← n.trimAscii.toString.toNat?
+      some s!"ok|{fmtList toString (findClosestSparse (ds.zip idx) n)}"
+  | ["solve", n, g, g0, v] => do
+      let n ← n.trimAscii.toString.toNat?
+      let g ← parseRats g
+      let g0 ← parseRats g0
+      let v ← parseRats v
+      let ga := g.toArray
+      let g0a := g0.toArray
+      match krigeSolve n (fun i j => ga.getD (i * n + j) 0) (fun i => g0a.getD i 0) v with
+      | none => some "ok|singular"
+      | some r => some s!"ok|{fmtRat r.estimate}|{fmtRat r.variance}|{fmtRat r.mu}|{fmtList fmtRat r.weights}"
+  | ["loop", kinds, zs, gs] => do
+      let zs ← parseRats zs
+      let gs ← parseRats gs
+      let os ← buildOutcomes (tokens kinds) zs gs
+      let st := transformLoop os
+      some s!"ok|{fmtList fmtOptRat st.z}|{fmtList fmtOptRat st.sigma}|{st.noPoints}|{st.singular}|{st.cursor}"
   | _ => none
 
 end Skg
